@@ -115,6 +115,10 @@ func (x *Exec) invoke(cfg *Config, f *Frame, tg target, args []Val, dest ssa.Val
 			return nil, false
 		}
 		x.finishCall(f, dest, res, isDefer)
+		if cfg.closedNow {
+			cfg.closedNow = false
+			x.triggerWatchers(cfg, f)
+		}
 		return nil, false
 	case tg.fn != nil:
 		fn := tg.fn
@@ -274,9 +278,7 @@ func (x *Exec) unknownCall(cfg *Config, f *Frame, tg target, args []Val, dest ss
 				ci.cancelled = true
 				x.finishCall(f, dest, TupV{}, isDefer)
 				// goroutines waiting for this context now run
-				for x.runWatchers(cfg, f) {
-					return nil, false
-				}
+				x.triggerWatchers(cfg, f)
 				return nil, false
 			}
 		}
@@ -353,6 +355,10 @@ func (x *Exec) doReturn(cfg *Config, f *Frame, res []Val) (end bool) {
 	}
 	cfg.frames = cfg.frames[:len(cfg.frames)-1]
 	caller := cfg.top()
+	if f.watcher != nil {
+		x.nextWatcher(cfg, f.depth-1)
+		return false
+	}
 	if f.isDefer {
 		return false
 	}
